@@ -119,8 +119,10 @@ type World struct {
 	trace   bool
 	log     []string
 
-	cbSeen  map[int]int // fn id -> callbacks observed
-	noClock bool
+	cbSeen      map[int]int // fn id -> callbacks observed
+	noClock     bool
+	regScope    map[int]int // fn id -> scope of the op that registered it
+	nestedPanic interface{}
 }
 
 func (w *World) logf(f string, a ...interface{}) {
@@ -130,7 +132,7 @@ func (w *World) logf(f string, a ...interface{}) {
 }
 
 func newWorld(h *History, withMonitor bool, trace bool) *World {
-	w := &World{h: h, mats: map[int]*mat{}, execs: map[int]int{}, cbSeen: map[int]int{}, trace: trace}
+	w := &World{h: h, mats: map[int]*mat{}, execs: map[int]int{}, cbSeen: map[int]int{}, trace: trace, regScope: map[int]int{}}
 	var opts []dig.Option
 	if h.Opts.Defer {
 		opts = append(opts, dig.DeferAcyclicVerification())
@@ -380,6 +382,22 @@ func (w *World) body(m *mat, args []reflect.Value) []reflect.Value {
 	rec.Dur = time.Duration(len(w.open))*time.Microsecond + time.Duration(w.totalExecs()+1)*time.Millisecond
 	w.advance(rec.Dur)
 
+	if f.Reenter > 0 && f.Reenter-1 < len(w.h.Fns) {
+		// re-entrant use: call back into the container while this function is executing
+		if w.mon != nil {
+			w.mon.reentrant = true
+		}
+		nf := w.h.Fns[f.Reenter-1]
+		s := w.regScope[f.ID]
+		w.logf("    f%d re-enters the container: Invoke(f%d) from s%d", f.ID, nf.ID, s)
+		nerr, npan := guarded(func() error { return w.scopeInvoke(s, w.materialize(nf, false).val) })
+		w.logf("    nested Invoke(f%d) -> %s panic=%v", nf.ID, classify(nerr), npan)
+		if npan != nil {
+			if _, ok := npan.(*InjPanic); !ok {
+				w.nestedPanic = npan
+			}
+		}
+	}
 	fault := f.faultAt(exec)
 	if fault == "panic" {
 		ip := &InjPanic{f.ID, exec}
@@ -580,6 +598,9 @@ func (w *World) stepCall(i int, op *Op, rec *OpRec) {
 			fnv = w.materialize(f, viaOpt).val
 		}
 	}
+	if f != nil {
+		w.regScope[f.ID] = op.Scope
+	}
 	if w.mon != nil && f != nil {
 		w.mon.beforeCall(i, op, f)
 	}
@@ -650,6 +671,10 @@ func (w *World) stepCall(i int, op *Op, rec *OpRec) {
 			rec.Info = renderInputs(info.Inputs)
 		}
 	}
+	if w.nestedPanic != nil && pan == nil {
+		pan = fmt.Sprintf("nested Invoke from inside a user function panicked: %v", w.nestedPanic)
+	}
+	w.nestedPanic = nil
 	rec.Err, rec.Panic = err, pan
 	rec.Verdict = classify(err)
 	if pan != nil {
